@@ -20,6 +20,7 @@ import (
 	quic "github.com/refraction-networking/uquic"
 	"github.com/refraction-networking/uquic/internal/verifmc/explore"
 	"github.com/refraction-networking/uquic/internal/verifmc/sim"
+	"github.com/refraction-networking/uquic/internal/verifmc/wiremon"
 )
 
 var c17Causes = []string{"local-close", "remote-close", "idle-timeout", "transport-close", "stateless-reset", "handshake-timeout", "dial-cancel", "keepalive-then-blackhole", "idle-timeout-sending"}
@@ -547,6 +548,10 @@ func c17Run(t *testing.T, cfg c17Config) c17Result {
 			if n := quic.VerifResetTokenCount(tr); n != 0 {
 				fail("reset-tokens-not-released", "%d stateless reset tokens remain registered after the closing period", n)
 			}
+		}
+		// passive wire monitor over everything either side sent during the whole run
+		for _, f := range wiremon.Analyze(w.Router.FullLog(), w.KeyLog.Lines(), wiremon.Params{}).Findings {
+			fail(f.Key, "%s", f.What)
 		}
 		res.class = fmt.Sprintf("%s ended~%v calls=%d", cause, (tEnd - tCause).Round(100*time.Millisecond), len(results))
 		res.ndgrams = w.Router.Count(sim.C2S) + w.Router.Count(sim.S2C)
